@@ -7,6 +7,9 @@ Decided on every CFG path of every ConcurrentVector<T> instantiation (T with non
                        new end (the result of the std::move that closes the gap) to the *old* end taken
                        before size_ changes; resize() and clear() destroy in a loop before they store
                        the smaller size.
+  C32.buffer-ownership every site that installs a bucket buffer assigns (=, never accumulates) that
+                       bucket's shouldDealloc_ flag; shrink_to_fit frees only flagged buckets and nulls
+                       what it releases (each block freed exactly once).
   C32.no-double-ctor   insert(pos, value) never placement-constructs at the insertion point:
                        insertPartial() opens the gap with move_backward, which leaves a *live*
                        moved-from element there, so the new value must be assigned; insertPartial
@@ -125,3 +128,46 @@ def run(R):
         ok = bool(news) and bool(mb) and all(fn.dominates(news[0][0], p) or fn.can_reach(news[0][0], p) for p, _ in mb) and not any(fn.can_reach(p, news[0][0]) for p, _ in mb)
         R.ob("C32.no-double-ctor", fn, fn.loc, ok, "new tail element(s) constructed before move_backward assigns into them" if ok else "move_backward assigns into unconstructed storage", sitekey="insertPartial:%d-params" % len(fn.params), why=WHY)
     R.need("C32.no-double-ctor", n, 4, "insert / insertPartial overloads")
+
+    # ---- buffer ownership flags -------------------------------------------------------------------
+    # shrink_to_fit()/~ConcurrentVector free bucket b iff shouldDealloc_[b]; nothing ever resets that
+    # flag when a bucket is released, so every site that installs a buffer pointer must *assign* the
+    # flag for that bucket (a stale 'true' on a bucket that is now an interior slice of a larger block
+    # makes the next shrink free an interior pointer / free the block twice).
+    BUF = "dispenso::cv::ConVecBufferBase::buffers_"
+    FLAG = "dispenso::cv::ConVecBuffer::shouldDealloc_"
+    n = 0
+    def flag_write(e):
+        if e.get("k") not in ("bin", "compound"):
+            return None
+        l = strip_casts(e.get("l"))
+        if isinstance(l, dict) and l.get("k") == "index" and isinstance(strip_casts(l.get("base")), dict) and strip_casts(l.get("base")).get("field") == FLAG:
+            return l
+        return None
+    for fn in F.functions(regex=r"^dispenso::cv::ConVecBuffer::(tryAssignBuffer|allocAsNecessaryImpl)$"):
+        stores = []
+        for a in atomic_ops(F, fn):
+            if a.op == "store" and a.path and any(isinstance(x, str) and x.endswith("::buffers_") for x in a.path if isinstance(x, str)):
+                stores.append(a)
+        if not stores:
+            stores = [a for a in atomic_ops(F, fn) if a.op == "store" and "buffers_" in expr_str(a.node.get("obj"))]
+        writes = [(p, e, flag_write(e)) for p, e in fn.events() if flag_write(e) is not None]
+        for st in stores:
+            n += 1
+            obj = expr_str(st.node.get("obj"))
+            m = re.search(r"buffers_\[(.*)\]", obj)
+            idx = m.group(1) if m else None
+            mine = [(p, e, l) for p, e, l in writes if expr_str(l.get("idx")) == idx and (fn.postdominates(p, st.pos) or fn.dominates(st.pos, p))]
+            ok = bool(mine) and all(e.get("op") == "=" for p, e, l in mine) and all(const_val(e.get("r")) != 0 for p, e, l in mine)
+            det = "installing buffers_[%s] assigns shouldDealloc_[%s]" % (idx, idx) if ok else (
+                "buffers_[%s] is installed without assigning its ownership flag (%s)" % (idx, "; ".join("%s %s" % (e.get("op"), expr_str(e.get("r"))) for p, e, l in mine) or "no write"))
+            R.ob("C32.buffer-ownership", fn, st.node, ok, det, sitekey=fn.qname.split("::")[-1] + ":" + (idx or "?"),
+                 why="a bucket's buffer is freed iff its flag is set, and the flag survives shrink_to_fit(): a flag that is accumulated rather than assigned frees an interior pointer of a multi-bucket block")
+    R.need("C32.buffer-ownership", n, 2, "sites that install a bucket buffer")
+    for fn in F.functions(qname=CLS + "::shrink_to_fit"):
+        n += 1
+        de = [(p, e) for p, e in fn.events() if is_call(e, "dispenso::cv::dealloc")]
+        ok = bool(de) and all(any(pol and "shouldDealloc" in expr_str(at) for at, pol, b in fn.guard_atoms(p)) for p, e in de)
+        nul = [a for a in atomic_ops(F, fn) if a.op == "store" and "buffers_" in expr_str(a.node.get("obj")) and isinstance(strip_casts(a.node["args"][0]), dict) and (strip_casts(a.node["args"][0]).get("k") == "null" or const_val(a.node["args"][0]) == 0)]
+        ok = ok and bool(nul) and all(fn.dominates(p, nul[0].pos) or fn.can_reach(p, nul[0].pos) for p, e in de)
+        R.ob("C32.buffer-ownership", fn, fn.loc, ok, "buckets are freed only when flagged as owning their block, and the released bucket pointer is nulled" if ok else "shrink_to_fit frees a bucket that does not own its block, or leaves a dangling bucket pointer", sitekey="shrink_to_fit", why="each block is freed exactly once")
